@@ -73,8 +73,15 @@ def critical(ctx):
     ctx.ob("FRM", site, "divergence between the two halves' corrected distributions", len(en) == 1 and len([e for e in tr.calls() if e.d.get("fi") is not None and e.fi.name == "_distn_from_counts"]) == 3, "")
 
 
+def _eval_site(ctx, cname):
+    """qualified name of the evaluation method as the class analysed resolves it (it may be defined in the shared base or
+    separately in each of the two detectors)"""
+    fi = ctx.prog.lookup(ctx.prog.cls(cname), "_evaluate_kdqtree")
+    return fi.qualname if fi is not None else DET + "._evaluate_kdqtree"
+
+
 def evaluate(ctx, cname, it):
-    site = DET + "._evaluate_kdqtree"
+    site = _eval_site(ctx, cname)
     tr = ctx.trace(cname, "update", assume={"_drift_state": None}, nonnull=("X",))
     kl = [e for e in tr.calls() if e.callee[0] == "foreign" and e.callee[2] == "kl_distance"]
     ctx.anchor(site, "divergence computed [%s]" % cname, len(kl) == 1, "")
@@ -171,7 +178,7 @@ def _mchain(t):
 
 
 def accumulation(ctx, cname, it):
-    site = DET + "._evaluate_kdqtree"
+    site = _eval_site(ctx, cname)
     tr = ctx.trace(cname, "update", assume={"_drift_state": None, "_kdqtree": None}, nonnull=("X",))
     inner = lambda e: q.stack_has(e, site) and not any(f.name in ("reset", "_inner_set_reference", "set_reference") for f in e.stack)
     st = [e for e in tr.stores("_ref_data") if inner(e)]
@@ -193,7 +200,10 @@ def accumulation(ctx, cname, it):
                 ok = ok and (pos == (l == stacked))
     ctx.ob("FRM", site, "reference samples are collected in arrival order (stacked below what is already held) [%s]" % cname, ok, q.short(st[0].value, 160) if st else "", st[0] if st else None)
     if cs:
-        ctx.ob("FWD", cname + ".update", "the evaluation is told whether it runs on a stream or on batches [%s]" % cname, cs[0].args[-1] == const(it), q.short(cs[0].args[-1], 30), cs[0])
+        b_ = q.bind(cs[0])
+        if "input_type" in b_ or len(cs[0].fi.params()) > 2:
+            ctx.ob("FWD", cname + ".update", "the evaluation is told whether it runs on a stream or on batches [%s]" % cname, b_.get("input_type", cs[0].args[-1]) == const(it), q.short(cs[0].args[-1], 30), cs[0])
+        # else: the evaluation method belongs to this class alone and takes no mode (its mode-specific steps are decided by the other obligations)
         xv = q.validated(tr, 0)
         ctx.ob("FWD", cname + ".update", "the data evaluated is a private copy of the validated input [%s]" % cname,
                xv is not None and ary == atom(("call", "copy.deepcopy", (xv,), ())), q.short(ary, 80) if ary is not None else "", cs[0])
